@@ -125,6 +125,9 @@ enum EvKind {
     Present(usize, usize),
     /// the server takes a new (BEP42) id: its address is reported by its peer, it pings itself, re-keys
     Rekey,
+    /// the wall clock of the host is stepped (NTP, an operator, a restored VM); the monotonic clock is not.
+    /// Token lifetimes are intervals: they must not notice.
+    ClockStep(i64),
 }
 
 /// `idle`: after the first keep-alive (t = 0) the node receives nothing at all for this long; the whole
@@ -156,6 +159,14 @@ pub fn scenario(r: &mut Report, seed: u64, g: u64, holders: usize, case_id: u64,
     }
     if let Some(t) = rekey_at {
         evs.push((t, EvKind::Rekey));
+    }
+    if case_id % 4 == 2 {
+        let mut skew: i64 = 0;
+        for _ in 0..1 + rng.usize(3) {
+            let step = *rng.pick(&[-3600i64, -900, -301, -60, 60, 301, 900, 3600, 86_400]) * 1_000_000;
+            skew += step;
+            evs.push((rng.below(horizon.min(30 * MIN)), EvKind::ClockStep(skew)));
+        }
     }
     if idle > 0 {
         for e in evs.iter_mut() {
@@ -195,6 +206,10 @@ pub fn scenario(r: &mut Report, seed: u64, g: u64, holders: usize, case_id: u64,
                 if fx.trigger_rekey() {
                     r.count("timelines_with_a_rekey_of_the_server");
                 }
+            }
+            EvKind::ClockStep(skew) => {
+                fx.w.set_unix_skew(skew);
+                r.count("wall_clock_steps");
             }
             EvKind::Fetch(i) => {
                 let id = clients[i].id;
